@@ -147,7 +147,11 @@ func (g *c02gen) ziplist(entries [][]byte) []byte {
 		prev = len(body) - start
 	}
 	total := 10 + len(body) + 1
-	zl := []byte{byte(total), byte(total >> 8), byte(total >> 16), byte(total >> 24), 0, 0, 0, 0, byte(len(entries)), byte(len(entries) >> 8)}
+	cnt := len(entries)
+	if cnt > 65535 {
+		cnt = 65535
+	}
+	zl := []byte{byte(total), byte(total >> 8), byte(total >> 16), byte(total >> 24), 0, 0, 0, 0, byte(cnt), byte(cnt >> 8)}
 	zl = append(zl, body...)
 	return append(zl, 0xff)
 }
@@ -482,12 +486,12 @@ func (c *c02cfg) String() string {
 }
 
 type c02entry struct {
-	gap                        int
-	t                          byte
-	key, val                   []byte
-	exp                        string
-	idle, freq, nrl, rmc       int
-	load                       string
+	gap                  int
+	t                    byte
+	key, val             []byte
+	exp                  string
+	idle, freq, nrl, rmc int
+	load                 string
 }
 
 func (e *c02entry) String() string {
@@ -645,6 +649,32 @@ func genC02(gg *gen) {
 		}
 		c := g.config(e.key, len(e.val), t)
 		emit(c, e)
+	}
+	// 2b. the ziplist reader of the element-wise route alone (pkg/rdb ReadZiplistLength/ReadZiplistEntry): entry counts up to and
+	//     beyond the point where the 16-bit count field saturates (65535 = "walk the entries"), and damaged lists
+	for i, nz := 0, g.pick(60, 1200); i < nz; i++ {
+		n := g.r.Intn(12)
+		if i%10 == 0 {
+			n = []int{65534, 65535, 65536, 65537, 70000 + g.r.Intn(9000), 131072}[(i/10)%6]
+		}
+		es := make([][]byte, n)
+		for k := range es {
+			es[k] = g.member(k, n)
+		}
+		zl := g.ziplist(es)
+		switch g.r.Intn(6) {
+		case 0: // claim the saturated count on a short list / a wrong count
+			zl[8], zl[9] = 0xff, 0xff
+		case 1:
+			zl[8] ^= byte(1 << uint(g.r.Intn(8)))
+		case 2:
+			zl = zl[:len(zl)-1-g.r.Intn(3)] // end marker (and more) missing
+		case 3:
+			if len(zl) > 11 {
+				zl[10+g.r.Intn(len(zl)-10)] = byte(g.r.Intn(256))
+			}
+		}
+		g.emit("zl %s", hx(zl))
 	}
 	// 3. lua records, ucloud keys
 	for i := 0; i < g.pick(40, 400); i++ {
